@@ -41,3 +41,25 @@ Example C16_closed_nonvacuous :
   = [s2l "#/components/schemas/Foo"; s2l "#/components/requestBodies/FooBody"; s2l "#/components/schemas/Foo";
      s2l "#/components/schemas/ServerError"; s2l "#/components/schemas/Foo"; s2l "#/components/schemas/ServerError"].
 Proof. vm_compute. reflexivity. Qed.
+
+(* ---- reading the routes back: the entity names of a route's yml block (Model/Entities.v, a transcription of
+   openapi/utils/parse_utils.py:extract_entities compared with the code on generated texts each run).  For EVERY text made of
+   blank-separated words without blanks or backticks, some of them written between ``` fences: the entities are exactly the fenced
+   words, in order -- whatever characters the names are made of (digits and underscores included).  The operation is about the last
+   entity that is not "ServerError" (pick_entity). *)
+From CDD Require Entities EntitiesProofs.
+Theorem C16_entities_are_the_fenced_words : forall ts last_,
+  forallb EntitiesProofs.token_ok ts = true -> EntitiesProofs.token_ok last_ = true ->
+  Entities.extract_entities (concat (map (fun t => EntitiesProofs.render t ++ [SP]) ts) ++ EntitiesProofs.render last_)
+  = EntitiesProofs.entities_of (ts ++ [last_]).
+Proof. exact EntitiesProofs.entities_are_the_fenced_words. Qed.
+Print Assumptions C16_entities_are_the_fenced_words.
+Example C16_entities_example :
+  Entities.extract_entities (s2l "responses: '200': description: A `Config` object. $ref: ```Config``` '400': $ref: ```ServerError```")
+  = [s2l "Config"; s2l "ServerError"]
+  /\ Entities.pick_entity [s2l "Config"; s2l "ServerError"] = Some (s2l "Config")
+  /\ Entities.pick_entity [s2l "ServerError"] = None.
+Proof. exact EntitiesProofs.entities_example. Qed.
+(* outside the domain: a character glued to the closing fence becomes an entity of its own *)
+Example C16_entities_refuted : Entities.extract_entities (s2l "```Config```s") = [s2l "Config"; s2l "s"].
+Proof. exact EntitiesProofs.entities_refuted. Qed.
